@@ -53,8 +53,61 @@ class _Subst(ast.NodeTransformer):
         return n
 
 
+def _const_items(it, consts=None):
+    """items of a compile-time iteration space: a tuple / list literal, or range() over integer literals (at most 12 items)"""
+    if isinstance(it, (ast.Tuple, ast.List)):
+        return list(it.elts) if len(it.elts) <= 12 else None
+    if consts is not None and isinstance(it, ast.Name) and it.id in consts:
+        return list(consts[it.id])
+    if isinstance(it, ast.Call) and isinstance(it.func, ast.Name) and it.func.id == 'range' and not it.keywords and 1 <= len(it.args) <= 3:
+        vals = []
+        for a in it.args:
+            if isinstance(a, ast.UnaryOp) and isinstance(a.op, ast.USub) and isinstance(a.operand, ast.Constant) and isinstance(a.operand.value, int):
+                vals.append(-a.operand.value)
+            elif isinstance(a, ast.Constant) and isinstance(a.value, int) and not isinstance(a.value, bool):
+                vals.append(a.value)
+            else:
+                return None
+        r = range(*vals) if not (len(vals) == 3 and vals[2] == 0) else None
+        if r is None or len(r) > 12:
+            return None
+        return [ast.Constant(value=k) for k in r]
+    return None
+
+
+def _bind_target(target, item):
+    """mapping of loop-target names to the item's (sub)expressions, or None"""
+    if isinstance(target, ast.Name):
+        return {target.id: item}
+    if isinstance(target, (ast.Tuple, ast.List)) and isinstance(item, (ast.Tuple, ast.List)) and len(target.elts) == len(item.elts):
+        out = {}
+        for t, x in zip(target.elts, item.elts):
+            m = _bind_target(t, x)
+            if m is None:
+                return None
+            out.update(m)
+        return out
+    return None
+
+
 def _fold(node):
     class F(ast.NodeTransformer):
+        def visit_ListComp(self, n):
+            self.generic_visit(n)
+            # [f(k) for k in range(3)] -> [f(0), f(1), f(2)]
+            if len(n.generators) == 1 and not n.generators[0].ifs and not n.generators[0].is_async:
+                g = n.generators[0]
+                items = _const_items(g.iter)
+                if items is not None:
+                    elts = []
+                    for it_ in items:
+                        m = _bind_target(g.target, it_)
+                        if m is None:
+                            return n
+                        elts.append(F().visit(_Subst(m).visit(copy.deepcopy(n.elt))))
+                    return ast.copy_location(ast.List(elts=elts, ctx=ast.Load()), n)
+            return n
+
         def visit_BinOp(self, n):
             self.generic_visit(n)
             if isinstance(n.left, ast.Constant) and isinstance(n.right, ast.Constant) and isinstance(n.left.value, int) and isinstance(n.right.value, int) \
@@ -161,6 +214,9 @@ def _inline_call(methods, call, how, target, depth, stop=(), ho_only=False, impu
     if not impure and not all(_pure_arg(a) for a in bound.values()):
         return None
     body = [s for s in callee.body if not (isinstance(s, ast.Expr) and isinstance(s.value, ast.Constant))]
+    if not _tail_returns_only(body) and depth > 0:
+        # constant-trip loops of the helper are unrolled first: their returns then sit in guard position
+        body = flatten_body(methods, copy.deepcopy(body), depth - 1, None, stop, ho_only, impure)
     if not _tail_returns_only(body):
         return None
     # parameters that the helper re-binds cannot be replaced by expressions
@@ -257,7 +313,15 @@ def _hoist_nested(methods, body, stop):
     first, so that it can be inlined like a statement-level call:  x = self._h(a).data  ->  t = self._h(a); x = t.data"""
     out = []
     for st in body:
-        v = st.value if isinstance(st, (ast.Assign, ast.Return, ast.Expr)) else None
+        v = st.value if isinstance(st, (ast.Assign, ast.Return, ast.Expr)) else (st.test if isinstance(st, ast.If) else None)
+        if isinstance(st, ast.If) and isinstance(v, ast.Call) and _is_private_helper_call(methods, v, stop):
+            # `if self._h(x):` -> t = self._h(x); if t:
+            nm = '__h%d' % next(_counter)
+            out.append(ast.copy_location(ast.Assign(targets=[ast.Name(id=nm, ctx=ast.Store())], value=v, lineno=st.lineno, col_offset=0), st))
+            st = copy.copy(st)
+            st.test = ast.copy_location(ast.Name(id=nm, ctx=ast.Load()), v)
+            out.append(st)
+            continue
         if v is not None:
             pre = []
             while True:
@@ -281,7 +345,10 @@ def _hoist_nested(methods, body, stop):
                 v = R().visit(v)
             if pre:
                 st = copy.copy(st)
-                st.value = v
+                if isinstance(st, ast.If):
+                    st.test = v
+                else:
+                    st.value = v
                 out.extend(pre)
         out.append(st)
     return out
@@ -329,31 +396,27 @@ def flatten_body(methods, body, depth=3, consts=None, stop=(), ho_only=False, im
             items = None
             enum = False
             if isinstance(it, ast.Call) and isinstance(it.func, ast.Name) and it.func.id == 'enumerate' and len(it.args) == 1:
-                items, enum = _tuple_literal(it.args[0], consts), True
+                items, enum = _const_items(it.args[0], consts), True
             else:
-                items = _tuple_literal(it, consts)
+                items = _const_items(it, consts)
+            if ho_only and isinstance(it, ast.Call) and not enum:
+                items = None        # resolving callbacks only: counting loops stay loops
             if items is not None and len(items) <= 12 and not any(isinstance(n, (ast.Break, ast.Continue)) for n in ast.walk(st)):
                 unrolled = []
                 ok = True
                 for idx, item in enumerate(items):
-                    mapping = {}
                     if enum:
-                        if isinstance(st.target, ast.Tuple) and len(st.target.elts) == 2 and all(isinstance(x, ast.Name) for x in st.target.elts):
-                            mapping[st.target.elts[0].id] = ast.Constant(value=idx)
-                            mapping[st.target.elts[1].id] = item
-                        else:
-                            ok = False
-                            break
-                    elif isinstance(st.target, ast.Name):
-                        mapping[st.target.id] = item
+                        mapping = _bind_target(st.target, ast.Tuple(elts=[ast.Constant(value=idx), item], ctx=ast.Load()))
                     else:
+                        mapping = _bind_target(st.target, item)
+                    if mapping is None:
                         ok = False
                         break
                     stored = {n.id for s in st.body for n in ast.walk(s) if isinstance(n, ast.Name) and isinstance(n.ctx, ast.Store)}
                     if stored & set(mapping):
                         ok = False
                         break
-                    unrolled.extend(_Subst(mapping).visit(copy.deepcopy(s)) for s in st.body)
+                    unrolled.extend(_fold(_Subst(mapping).visit(copy.deepcopy(s))) for s in st.body)
                 if ok:
                     out.extend(flatten_body(methods, unrolled, depth, consts, stop, ho_only, impure))
                     continue
